@@ -43,8 +43,7 @@ package syntax
 //@   ensures[C14] bool: err == nil ==> (v is rel.TrueSet || v is rel.EmptySet)
 //@   ensures[C14] def: suffix is rel.Array && dense(subject) && dense(suffix.(rel.Array)) ==> ((v is rel.TrueSet) <==> win(subject.values, len(subject.values) - len(suffix.(rel.Array).values), suffix.(rel.Array).values))
 //@   ensures[C14] empty: suffix is rel.EmptySet ==> v is rel.TrueSet
-//@   loop 0 invariant off: suffixOffset == suffixArray.count - 1 - $idx && 0 <= suffixOffset
-//@   loop 0 invariant cmp: forall k in 0..$idx :: eq(subject.values[subject.count - 1 + k], suffixVals[suffixArray.count - 1 - k])
+//@   loop 0 invariant cmp: suffix is rel.Array && dense(subject) && dense(suffixArray) ==> win(subject.values, len(subjectVals) - len(suffixVals), suffixVals[0:$idx])
 
 // has_prefix: textbook = the first len(prefix) elements of subject equal prefix pointwise.
 // The subject is walked with Array.ArrayEnumerator (interface contracts of rel.ValueEnumerator in
